@@ -75,6 +75,25 @@ class Instance:
         return f"{self.cls.name}({', '.join([repr(a) for a in self.args] + [f'{k}={v!r}' for k, v in self.kwargs.items()])})"
 
 
+class OidVal(tuple):
+    """
+    A modelled ObjectIdentifier: a tuple of sub-identifiers with x690's semantics - ``other in self`` holds when
+    ``self`` is a prefix of ``other`` (subtree containment, equality included), ordering is lexicographic.
+    """
+
+    def __contains__(self, other: object) -> bool:  # type: ignore[override]
+        return isinstance(other, tuple) and tuple(other[: len(self)]) == tuple(self)
+
+    def __str__(self) -> str:
+        return ".".join(str(n) for n in self)
+
+    def __repr__(self) -> str:
+        return f"OID({self})"
+
+    def __add__(self, other: object) -> "OidVal":  # type: ignore[override]
+        return OidVal(tuple(self) + tuple(other))  # type: ignore[arg-type]
+
+
 class SymBytes:
     """Octets that are only known as a concatenation of parts: literal bytes and ``bytes(<object>)`` encodings."""
 
@@ -168,7 +187,10 @@ class MiniEval:
             if name in kwargs:
                 env[name] = kwargs.pop(name)
             elif name in defaults:
-                env[name] = self.eval(fn, defaults[name], {}, depth)
+                try:
+                    env[name] = self.eval(fn, defaults[name], {}, depth)
+                except Unevaluable:
+                    env[name] = Sym(f"default-of-{name}")  # e.g. a typing construct used as marker
             else:
                 raise Unevaluable(f"{fn.qualname}: argument {name} missing")
         if kwargs:
@@ -565,6 +587,14 @@ class MiniEval:
             raise Unevaluable(f"attribute {expr.attr} of {base.cls.name} instance")
         if isinstance(base, Sym):
             return Sym(f"{base.name}.{expr.attr}")
+        if isinstance(base, OidVal):
+            if expr.attr == "nodes":
+                return tuple(base)
+            if expr.attr in ("value", "pyvalue"):
+                return str(base)
+            if expr.attr == "pythonize":
+                return ("builtin-method", base, "pythonize")
+            raise Unevaluable(f"OID attribute {expr.attr}")
         if isinstance(base, slice) and expr.attr in ("start", "stop", "step"):
             return getattr(base, expr.attr)
         if isinstance(base, type) and base is int and expr.attr == "from_bytes":
@@ -611,6 +641,16 @@ class MiniEval:
             }
             if name == "cast" and len(args) == 2:
                 return args[1]  # typing.cast has no runtime effect
+            if name == "map" and len(args) == 2:
+                fobj = args[0]
+                items = self.iterate(args[1])
+                if fobj is str:
+                    return [str(i) for i in items]
+                if fobj is int:
+                    return [int(i) for i in items]
+                if isinstance(fobj, FuncRef):
+                    return [self.call_function(fobj.fn, [i], {}, depth + 1) for i in items]
+                raise Unevaluable("map() with an opaque function")
             if name == "reversed" and len(args) == 1:
                 return list(reversed(self.iterate(args[0])))
             if name == "enumerate":
@@ -672,6 +712,8 @@ class MiniEval:
                             out = out + base
                         out = out + item
                     return out
+            if isinstance(base, OidVal) and meth == "pythonize":
+                return str(base)
             if base is int and meth == "from_bytes":
                 try:
                     return int.from_bytes(*args, **kwargs)
